@@ -16,7 +16,7 @@ RULE = ("altitude grid -1400..36000 ft (50 ft quick / 5 ft thorough) + random al
         "altitudes; a case = (clause, inputs); non-trivial unless it is the sea-level standard atmosphere itself")
 MUST_OBSERVE = ["isa_points", "cross_pairs", "station_altitude_exact", "seam_checks", "mono_pressure", "mono_temperature",
                 "mono_humidity_fraction", "mono_humidity_percent", "humidity_equivalence", "humidity_rejected",
-                "vacuum_queries", "nonstandard_station_seam", "history_cases"]
+                "vacuum_queries", "nonstandard_station_seam", "history_cases", "isa_points_under_other_preferred_units"]
 ASSUMPTIONS = ["R-ISA: T0 288.15 K, P0 101325 Pa, L 6.5 K/km, g0 9.80665, M 0.0289644, R* 8.31432, gamma 1.4, rho0 1.225 kg/m3",
                "humidity pairs for monotonicity are given in one convention (both fractions in [0,1] or both percents in (1,100])"]
 T0, P0, L, G0, M, R, GAMMA, RHO0 = 288.15, 101325.0, 0.0065, 9.80665, 0.0289644, 8.31432, 1.4, 1.225
@@ -41,10 +41,24 @@ def rel(a, b):
     return abs(a - b) / abs(b)
 
 
-def check_isa(ctx, h_ft):
-    case = {"clause": "isa", "alt_ft": h_ft}
+def check_isa(ctx, h_ft, prefs=None):
+    case = {"clause": "isa", "alt_ft": h_ft, "prefs": prefs}
     ctx.case(case, nontrivial=h_ft != 0, sample=False)
     ctx.count("isa_points")
+    if prefs:
+        # the public readings (altitude, pressure, temperature, mach) are quantities: physically the same under any preferred units
+        from py_ballisticcalc import PreferredUnits, Unit  # pylint: disable=import-outside-toplevel
+        for slot, unit in prefs.items():
+            setattr(PreferredUnits, slot, Unit[unit])
+        ctx.count("isa_points_under_other_preferred_units")
+    try:
+        _check_isa(ctx, h_ft, case)
+    finally:
+        if prefs:
+            reset_globals()
+
+
+def _check_isa(ctx, h_ft, case):
     a = Atmo.icao(Distance.Foot(h_ft))
     t, p, rho, c = isa(h_ft)
     obs = {"temperature_K": (a.temperature >> Temperature.Kelvin, t),
@@ -264,8 +278,11 @@ def run(ctx):
     for h in ctx.my(grid):
         check_isa(ctx, h)
     n = 4000 if ctx.tier == "quick" else 200000
+    from vf import refs_si as si  # pylint: disable=import-outside-toplevel
+    slots = {"distance": "Distance", "velocity": "Velocity", "temperature": "Temperature", "pressure": "Pressure"}
     for _ in range(ctx.share(n)):
-        check_isa(ctx, round(rng.uniform(-1400, 36000), 3))
+        prefs = {slot: rng.choice(si.DIMENSIONS[dim]) for slot, dim in slots.items()} if rng.random() < 0.25 else None
+        check_isa(ctx, round(rng.uniform(-1400, 36000), 3), prefs)
     for _ in range(ctx.share(n)):
         h0 = rng.choice([0.0, round(rng.uniform(-1400, 36000), 2)])
         k = rng.random()
@@ -315,7 +332,7 @@ def replay(ctx, case):
     reset_globals()
     c = case["clause"]
     if c == "isa":
-        check_isa(ctx, case["alt_ft"])
+        check_isa(ctx, case["alt_ft"], case.get("prefs"))
     elif c == "cross":
         check_cross(ctx, case["station_ft"], case["query_ft"])
     elif c == "station-seam":
